@@ -157,3 +157,40 @@ Example ex_unknown_names :
   is_ok (get_backbone_config (bb_arg (VStr "swint_base"))) = true /\
   is_ok (get_head_configs (head_arg (VStr "centroid"))) = true.
 Proof. vm_compute. repeat split. Qed.
+
+(* ------------------------------------------- augmentation arguments as dicts / other types *)
+
+(* augmentation arguments given as dicts: each is the constructor of its config class applied
+   to the caller's kwargs, for ALL kwargs (so by mk_reflects_kwargs / mk_defaults_elsewhere /
+   mk_validates every supplied option lands unmodified, every other one holds the schema
+   default, and an out-of-range probability makes the builder raise) *)
+Theorem aug_dict : forall ikw gkw r,
+  get_aug_config (aug_args (VDict ikw) (VDict gkw)) = Ok r ->
+  exists i g, mk cls_IntensityConfig ikw = Ok i /\ mk cls_GeometricConfig gkw = Ok g /\
+              r = VObj "AugmentationConfig" [("intensity", i); ("geometric", g)].
+Proof.
+  intros ikw gkw r H. unfold get_aug_config in H. cbv zeta in H.
+  change (aug_args (VDict ikw) (VDict gkw) "intensity_aug") with (VDict ikw) in H.
+  change (aug_args (VDict ikw) (VDict gkw) "geometric_aug") with (VDict gkw) in H.
+  cbn [py_is_str py_is_list py_is_dict orb] in H.
+  change (mk_kw cls_IntensityConfig [] [VDict ikw]) with (mk cls_IntensityConfig ikw) in H.
+  change (mk_kw cls_GeometricConfig [] [VDict gkw]) with (mk cls_GeometricConfig gkw) in H.
+  destruct (mk cls_IntensityConfig ikw) as [i|] eqn:Ei; [|vm_compute in H; discriminate H].
+  destruct (mk cls_GeometricConfig gkw) as [g|] eqn:Eg; [|vm_compute in H; discriminate H].
+  vm_compute in H. injection H as <-. exists i, g. repeat split; reflexivity.
+Qed.
+Print Assumptions aug_dict.
+
+(* an argument that is neither a string, a list nor a dict (None, a tuple, a number) is
+   ignored: that half of the augmentation configuration holds the schema defaults *)
+Theorem aug_other_types_ignored : forall iv gv r,
+  py_is_str iv = false -> py_is_list iv = false -> py_is_dict iv = false ->
+  py_is_str gv = false -> py_is_list gv = false -> py_is_dict gv = false ->
+  get_aug_config (aug_args iv gv) = Ok r -> r = default_obj cls_AugmentationConfig.
+Proof.
+  intros iv gv r S1 L1 D1 S2 L2 D2 H. unfold get_aug_config in H. cbv zeta in H.
+  change (aug_args iv gv "intensity_aug") with iv in H. change (aug_args iv gv "geometric_aug") with gv in H.
+  rewrite S1, L1, D1, S2, L2, D2 in H. cbn [orb] in H.
+  vm_compute in H. injection H as <-. vm_compute. reflexivity.
+Qed.
+Print Assumptions aug_other_types_ignored.
